@@ -439,3 +439,49 @@ def handle_x_conditions(rep, conds, classify=None):
         else:
             c.outcome = "error"
             c.detail = "replay failed: " + text[:400]
+
+
+def run_x_property(prop, tier, seed, specs, rule="", explanation="", assumptions=(), stand_ins=(), functions=(),
+                   classify=None, extra_conds=(), known_replays=()):
+    """Standard flow of a CrossHair-decided property."""
+    rep = Report(prop, tier, seed)
+    rep.rule = rule or ("one CrossHair condition per harness contract x configuration; a condition counts when CrossHair "
+                        "reports 'Confirmed over all paths' and the reachability twin produced a witness")
+    rep.explanation = explanation or ("Engine X: CrossHair executes the real gffutils functions on symbolic inputs "
+                                      "(z3 decides every branch); exhaustion of all paths within the stated bounds = confirmed")
+    rep.assumptions = list(assumptions)
+    rep.stand_ins = list(stand_ins)
+    rep.functions = list(functions)
+    conds = run_xspecs(specs)
+    handle_x_conditions(rep, conds, classify)
+    for c in extra_conds:
+        rep.add(c)
+    # known findings: replay the recorded input; still failing -> KNOWN-FINDING line
+    for k in load_known(prop):
+        if k.get("status") != "known":
+            continue
+        rp = k.get("replay")
+        if rp:
+            ok, val = real_call(rp["module"], rp["func"], (rp.get("args", []), rp.get("kwargs", {})), rp.get("env"))
+            if ok and val == "True":
+                rep.harness_errors.append("known finding %s no longer reproduces - move it to status=fixed" % k["key"])
+            elif ok is None:
+                rep.harness_errors.append("known finding %s: replay failed: %s" % (k["key"], val[:200]))
+            else:
+                rep.known_lines.append("KNOWN-FINDING: property=%s %s" % (prop, k["what"]))
+    return rep
+
+
+def functions_called(module, func, args, env=None):
+    """names of the /repo functions executed when module.func(*args) runs on the real stack (profiling)"""
+    code = (
+        "import sys, os\n"
+        "seen=set()\n"
+        "def prof(frame, event, arg):\n"
+        "    if event=='call':\n"
+        "        fn=frame.f_code.co_filename\n"
+        "        if '/gffutils/' in fn and '/test/' not in fn:\n"
+        "            seen.add(os.path.basename(fn)[:-3]+'.'+frame.f_code.co_qualname)\n"
+        "sys.setprofile(prof)\n"
+    )
+    return code
